@@ -1040,6 +1040,40 @@ struct Counters {
     c02_commit_checks: u64,
     reloads: u64,
     old_key_checks: u64,
+    #[serde(default)]
+    nonce_packs: u64,
+}
+
+/// C10 by-product: within everything a folder key has encrypted and the
+/// folder still stores (event records + vault rows), no nonce occurs with
+/// two different ciphertexts.
+async fn check_nonces(
+    dev: &Dev,
+    m: &Model,
+    op: &Op,
+    fails: &mut Fails,
+    counters: &mut Counters,
+) {
+    for (fi, f) in m.folders.iter().enumerate() {
+        if !f.alive {
+            continue;
+        }
+        if let Ok(packs) = stored_packs(dev, &vid(&f.id)).await {
+            let mut seen: HashMap<Vec<u8>, Vec<u8>> = HashMap::new();
+            for p in packs {
+                counters.nonce_packs += 1;
+                let n = p.nonce.as_ref().to_vec();
+                if let Some(prev) = seen.get(&n) {
+                    if prev != &p.ciphertext {
+                        fails.push("C10", format!("nonce_reused_in_folder:{}", dev.backend.name()), "two different blobs stored by a folder carry the same nonce".into(), json!({"folder": fi, "after": op.kind()}));
+                        break;
+                    }
+                } else {
+                    seen.insert(n, p.ciphertext);
+                }
+            }
+        }
+    }
 }
 
 /// What is remembered about a folder before a maintenance op.
@@ -1367,6 +1401,7 @@ async fn transition(
     check_c20(&mut dev, &m, op, &mut fails).await;
     check_c16(&mut dev, op, &mut fails).await;
     check_c12(&mut dev, &m, op, &old_keys, &mut fails, counters).await;
+    check_nonces(&dev, &m, op, &mut fails, counters).await;
     // lock / unlock every folder then read again
     let mut lock_ok = true;
     for f in m.folders.iter().filter(|f| f.alive) {
@@ -1682,6 +1717,7 @@ fn main() {
                                 c.c02_commit_checks;
                             counters_total.reloads += c.reloads;
                             counters_total.old_key_checks += c.old_key_checks;
+                            counters_total.nonce_packs += c.nonce_packs;
                         }
                         for s in v["succ"].as_array().unwrap() {
                             transitions += 1;
